@@ -1328,6 +1328,8 @@ func exec(line string) (res h.Result) {
 		return execSeq(w)
 	case "cc":
 		return execCC(w)
+	case "grp":
+		return execGrp(w)
 	case "sig":
 		return execSig(w)
 	case "pk":
